@@ -389,5 +389,39 @@ def rule_axis_by_label(ctx):
                     f"`{src_of(c)[:70]}` (line {c.lineno}) reduces stored tensor data along axis `{src_of(axis)}`, which is not derived from a label "
                     f"lookup: the result depends on the order in which the tensor stores its axes",
                     where=f"{g.module.relpath}:{c.lineno}", operand=base))
+        # positional broadcasting: stored data combined elementwise with a freshly built lower-rank array aligns on the
+        # trailing stored axes, whatever label they carry
+        ARRAY_MAKERS = {"asarray", "array", "ones", "zeros", "arange", "linspace", "diag", "stack", "concatenate", "eye", "full", "ones_like", "zeros_like"}
+
+        def made_array(e, depth=0):
+            if depth > 3:
+                return False
+            if isinstance(e, ast.Call):
+                fn = (dotted(e.func) or "").split(".")[-1]
+                args = list(e.args)
+                if fn == "do" and args and isinstance(args[0], ast.Constant):
+                    fn = str(args[0].value).split(".")[-1]
+                    args = args[1:]
+                if fn in ("ones_like", "zeros_like"):
+                    return False  # same shape as its argument: no broadcasting
+                if fn in ARRAY_MAKERS:
+                    return True
+                if fn in ("reshape",) and args:
+                    return False  # an explicit reshape establishes the alignment
+            if isinstance(e, ast.Name):
+                return any(made_array(d, depth + 1) for d in defs.get(e.id, []))
+            return False
+
+        for b in ast.walk(g.node):
+            if isinstance(b, ast.BinOp) and isinstance(b.op, (ast.Mult, ast.Add, ast.Sub, ast.Div)):
+                for data_side, other in ((b.left, b.right), (b.right, b.left)):
+                    if is_data(data_side) and not is_data(other) and made_array(other):
+                        r.bad(Finding(
+                            "axis-by-label", g.qualname,
+                            f"`{src_of(b)[:70]}` (line {b.lineno}) broadcasts a freshly built array against stored tensor data: the array is aligned "
+                            "with the trailing stored axis, not with the labelled index it is meant for — the result depends on the storage order",
+                            where=f"{g.module.relpath}:{b.lineno}", operand="broadcast"))
+                        break
     r.floor(n_lab, 2, "label-derived axis uses on tensor data")
+    r.need_controls(1)
     return r
